@@ -7,7 +7,7 @@ from props import c01, c02
 
 ID = "C12"
 LEVEL = "proof"
-THEOREMS = ["C12_position_is_intersection", "C12_errors", "C12_changes_nothing_else", "C12_failed_fix_unchanged", "C12_starred_domain", "C12_composite_flat", "C12_composite_positions", "C12_signal_fix_changes_nothing_else", "C12_qualified_fix_changes_nothing_else", "C12_nested_binding_star_rule", "C12_double_star_cancels"]
+THEOREMS = ["C12_position_is_intersection", "C12_errors", "C12_changes_nothing_else", "C12_failed_fix_unchanged", "C12_starred_domain", "C12_composite_flat", "C12_composite_positions", "C12_signal_fix_changes_nothing_else", "C12_qualified_fix_changes_nothing_else", "C12_nested_binding_star_rule", "C12_double_star_cancels", "C12_entry_changes_only_constraints", "C12_file_changes_only_constraints", "C12_signal_fix_is_leaf_fixes", "C12_qualified_fix_is_fix_at_instance", "C12_unknown_name_only_warns"]
 TRUSTED = c02.TRUSTED + ["harness oracle expected_fixed: per-nucleotide intersection through the denotation (reverse complement for starred positions)"]
 ASSUMPTIONS = c02.ASSUMPTIONS + ["fixed strings use the alphabet the fixed-file reader accepts (ATCGNS and '+')"]
 
@@ -232,6 +232,17 @@ def run(tier, seed, build):
                 if f["key"] == "den-doms":
                     f["summary"] = "fixing does not give the intersection of previous and fixed codes at the right positions: " + f["summary"]
         failures += fs
+    # C09_fixed_system_wf_pil / C09_fixed_component_wf_pil: whatever is written with a fixed-sequence file passes the extracted predicate
+    wreqs = []; widx = []
+    for i, r in enumerate(impl):
+        if isinstance(r, dict) and r.get("outcome") == "ok" and r.get("lines") is not None:
+            wreqs.append(["wfpil", [["kinetic", l[3], l[4]] if l[0] == "kinetic" else l for l in r["lines"]]]); widx.append(i)
+    dist["fixed_outputs_wf_pil"] = 0
+    for i, m in zip(widx, fw.run_model(wreqs)):
+        c = cases[i]
+        if m == "T": dist["fixed_outputs_wf_pil"] += 1
+        else: failures.append({"kind": "predicate", "key": "fixed-wf_pil", "summary": "the specification written with a fixed-sequence file violates the well-formedness predicate",
+                               "replay": {"files": c["files"], "argv": "pepper-compiler %s %s --fixed fix.fixed %s" % (c["base"], " ".join(map(str, c["args"])), " ".join("-I " + x for x in c["includes"]))}})
     return {"evaluations": len(cases), "distinct_nontrivial": len(nontrivial),
             "rule": "45% generated components, 55% generated system libraries (as C02), each with a fixed-sequence file of 1-8 entries: sequences (base, super-sequence, `seq` spelling), strands, multi-strand structures, signals (bound directly and through nested systems), unknown names, N/S codes, mostly compatible strings, 7% wrong lengths, overlapping fixes in file order; templates compared with the per-nucleotide intersection oracle. Non-trivial = some template is narrowed",
             "samples": [c["files"].get("fix.fixed") for c in cases[:3]], "distribution": dist, "failures": failures}
